@@ -553,6 +553,9 @@ class RoiSubsetStateNd(SubsetState):
     def move_to(self, *args):
         self._roi.move_to(*args)
 
+    def copy(self):
+        return RoiSubsetStateNd(list(self._atts), self.roi, self.pretransform)
+
     @contract(data='isinstance(Data)', view='array_view')
     def to_mask(self, data, view=None):
 
